@@ -124,6 +124,8 @@ def mk(tag, pool=None):
             return datetime.date(*tag[1:])
         if k == "INTERP":
             return Interpolation([27.0, 27.5, 28.0, 28.5, 29.0], [0.91, 0.9068, 0.90427, 0.90238, 0.90112])
+        if k == "INTERP2":
+            return Interpolation([27.0, 29.0], [0.91, 0.90112])
         if k == "INTERP_ROOT":
             return Interpolation([27.0, 27.5, 28.0, 28.5, 29.0], [-0.6, -0.25, 0.05, 0.3, 0.7])
         if k == "INTERP_MM":
@@ -689,6 +691,8 @@ def replay_totality(case):
 # ---------------------------------------------------------------------------
 # clause: boundary / out-of-range probes (explicit list).  A probe marked
 # "in" lies inside the documented domain: the call must return finite values.
+# A probe marked "refuse" is an input for which the callable's own documentation promises ValueError
+# (an abscissa outside an interpolation table): a normal return is the violation.
 # A probe marked "out" is out of range: it must be rejected with TypeError or
 # ValueError, or - where the documentation promises nothing - return a finite
 # value; any other exception class, a non-finite or complex result is the
@@ -760,7 +764,15 @@ def probes():
         ("in", "Earth.distance", [10.0, 90.0, 200.0, 90.0], ("EARTH",)),
         ("out", "Earth.parallax_correction", [("A", 10.0), ("A", 10.0), ("A", 10.0), 0.0, ("A", 10.0), 0.0], None),
         ("out", "Minor.geocentric_position", [("E", 2448170.5)], ("MINOR_HYP",)),
-        ("out", "Interpolation.derivative", [40.0], ("INTERP",)),
+        ("refuse", "Interpolation.derivative", [40.0], ("INTERP",)),
+        ("refuse", "Interpolation.derivative", [40.0], ("INTERP2",)),
+        ("refuse", "Interpolation.derivative", [26.999], ("INTERP2",)),
+        ("refuse", "Interpolation.__call__", [40.0], ("INTERP2",)),
+        ("refuse", "Interpolation.__call__", [40.0], ("INTERP",)),
+        ("in", "Interpolation.derivative", [27.0], ("INTERP2",)),
+        ("in", "Interpolation.__call__", [29.0], ("INTERP2",)),
+        ("refuse", "Interpolation.root", [40.0, 50.0, 1000], ("INTERP_ROOT",)),
+        ("refuse", "Interpolation.minmax", [40.0, 50.0, 1000], ("INTERP_MM",)),
         ("out", "Interpolation.root", [28.0, 28.0, 1000], ("INTERP_ROOT",)),
         ("out", "CurveFitting.linear_fitting", [], ("CF_DEG",)),
     ]
@@ -822,6 +834,9 @@ def check_probe(case):
         return ["%s raised %s: %s (only TypeError/ValueError are documented)" % (shown, type(ex).__name__, ex)]
     if not all_finite(r) or any(isinstance(v, complex) for v in (r if isinstance(r, tuple) else (r,))):
         return ["%s returned a non-value: %r" % (shown, canon(r))]
+    if kind == "refuse":
+        # the documentation of this callable promises ValueError for this input
+        return ["%s returned %r although its documentation promises a ValueError for this input" % (shown, canon(r))]
     return []
 
 
@@ -979,6 +994,147 @@ def run_near(block, ctx):
     ctx.sample({"callable": block[0], "scales": NEAR_SCALES})
 
 
+# ---------------------------------------------------------------------------
+# clause: dense sweeps of one scalar parameter through its documented domain
+
+def dense_cases():
+    S = SP.specs()
+    out = []
+    for name, sweeps in sorted(SP.DENSE.items()):
+        if name not in S:
+            continue
+        for (pi, lo, hi, step) in sweeps:
+            kind = S[name]["params"][pi][0]
+            for v in SP.dense_values(lo, hi, step):
+                out.append((name, pi, ("A", float(v)) if kind == "angle" else v))
+    return out
+
+
+def check_dense(case):
+    name, pi, v = case["callable"], case["position"], case["value"]
+    if isinstance(v, list):
+        v = tuple(v)
+    S = SP.specs()
+    al = alphabets(S[name])
+    choice = [a[0] for a in al]
+    choice[pi] = ("alt", v)
+    return check_tuple(name, choice)
+
+
+def run_dense(block, ctx):
+    g0 = global_state()
+    for (name, pi, v) in block:
+        ctx.evals += 1
+        ctx.transitions += 1
+        if not (isinstance(v, int) or (isinstance(v, float) and v == int(v))):
+            ctx.nt_count += 1           # a value between the integers
+        else:
+            ctx.nt(key=(name, pi))
+        for site, msg in check_dense({"callable": name, "position": pi, "value": v}):
+            ctx.viol({"callable": name, "position": pi, "value": v}, msg, site="dense_" + site)
+        ctx.outcome((name, pi))
+    dg = diff_keys(g0, global_state())
+    if dg:
+        ctx.viol({"callable": block[0][0]}, "dense sweeps changed module-level state: %s" % dg[:5],
+                 site="globals_changed")
+    ctx.states += 1
+    ctx.traces += 1
+    ctx.sample({"callable": block[0][0], "position": block[0][1], "value": block[0][2]})
+
+
+# ---------------------------------------------------------------------------
+# clause: an object loaded again through set() answers like a fresh object
+
+def _views(obj):
+    out = []
+    if isinstance(obj, CurveFitting):
+        for f in (obj.linear_fitting, obj.quadratic_fitting, obj.correlation_coeff,
+                  lambda: obj.general_fitting(FNS["x"], FNS["one"]), lambda: len(obj), lambda: str(obj)):
+            try:
+                out.append(canon(f()))
+            except Exception as ex:
+                out.append(type(ex).__name__)
+    elif isinstance(obj, Interpolation):
+        for f in (lambda: obj(1.5), lambda: obj.derivative(1.5), lambda: obj.root(), lambda: obj.minmax(),
+                  lambda: len(obj), lambda: str(obj), obj.get_tolerance):
+            try:
+                out.append(canon(f()))
+            except Exception as ex:
+                out.append(type(ex).__name__)
+    elif isinstance(obj, Angle):
+        out = [canon(obj()), obj.dms_str(), obj.ra_str(), canon(obj.rad()), canon(obj.dms_tuple()),
+               canon(obj.ra_tuple()), canon(obj.get_ra())]
+    elif isinstance(obj, Epoch):
+        out = [canon(obj.jde()), canon(obj.get_full_date()), obj.dow(), canon(obj.doy()), canon(obj.year()),
+               canon(obj.mjd()), canon(obj.mean_sidereal_time()), obj.leap(), obj.julian(), str(obj)]
+    return out
+
+
+RESET_DATA = {
+    "CurveFitting": [([0.0, 1.0, 2.0, 3.0, 4.0], [1.0, 3.5, 4.0, 7.5, 9.0]),
+                     ([73.0, 38.0, 35.0, 42.0, 78.0, 68.0, 74.0], [90.4, 125.3, 161.8, 143.4, 52.5, 50.8, 71.5]),
+                     ([-2.0, -1.0, 0.0, 1.0, 2.0], [4.1, 0.9, 0.0, 1.1, 3.9]),
+                     ([5.0, 1.0, 3.0], [2.0, 7.0, -1.0])],
+    "Interpolation": [([0.0, 1.0, 2.0, 3.0], [-1.0, 0.5, 2.5, 3.0]),
+                      ([1.0, 2.0], [3.0, -5.0]),
+                      ([0.0, 1.0, 2.0, 3.0, 4.0], [4.0, 1.0, 0.0, 1.0, 4.0]),
+                      ([3.0, 1.0, 2.0], [0.5, -0.5, 0.25])],
+    "Angle": [(370.5,), (-12.0,), (0.0,), (23.0, 26.0, 48.99)],
+    "Epoch": [(2451545.0,), (1987, 6, 19.5), (1582, 10, 4.75), (-1000, 7, 12.5)],
+}
+
+
+def check_reset(case):
+    """construct(d0); set(d1); set(d2) ...: after each set() every view of the object equals the view of an
+    object freshly constructed from the same data (set() twice with the same data included)."""
+    cls = {"CurveFitting": CurveFitting, "Interpolation": Interpolation, "Angle": Angle, "Epoch": Epoch}[case["class"]]
+    data = RESET_DATA[case["class"]]
+    hist = case["history"]
+
+    def args(k):
+        return [list(a) if isinstance(a, list) else a for a in data[k]]
+    out = []
+    try:
+        obj = cls(*args(hist[0]))
+        _views(obj)
+        for n, k in enumerate(hist[1:]):
+            obj.set(*args(k))
+            got = _views(obj)
+            exp = _views(cls(*args(k)))
+            if got != exp:
+                bad = [i for i in range(len(got)) if got[i] != exp[i]]
+                out.append("%s built from data set %d and re-loaded with set() through %r answers %r where a fresh "
+                           "object answers %r (view %d)" % (case["class"], hist[0], hist[1:n + 2], got[bad[0]],
+                                                           exp[bad[0]], bad[0]))
+                break
+    except Exception as ex:
+        out.append("%s history %r raised %s: %s" % (case["class"], hist, type(ex).__name__, ex))
+    return out
+
+
+def reset_cases(tier):
+    out = []
+    for cl, data in sorted(RESET_DATA.items()):
+        n = len(data)
+        for depth in ((2, 3, 4) if tier == "thorough" else (2, 3)):
+            for h in itertools.product(range(n), repeat=depth):
+                out.append({"class": cl, "history": list(h)})
+    return out
+
+
+def run_reset(block, ctx):
+    for case in block:
+        ctx.evals += 2 * len(case["history"])
+        ctx.transitions += len(case["history"]) - 1
+        ctx.states += 1
+        ctx.traces += 1
+        ctx.nt_count += 1
+        for msg in check_reset(case):
+            ctx.viol(case, msg, site="object_reset")
+        ctx.outcome((case["class"], case["history"][-1]))
+    ctx.sample(block[0])
+
+
 def clauses(tier):
     S = SP.specs()
     names = sorted(S)
@@ -995,5 +1151,8 @@ def clauses(tier):
         Clause("reused_arguments", chunks(order, 32), run_reuse, check_reuse, floor=100, shape="H"),
         Clause("near_arguments", chunks(order, 32), run_near, check_near, floor=100, shape="H"),
         Clause("totality", tot_blocks, run_totality, replay_totality, floor=500, shape="H"),
+        Clause("dense_domains", chunks(dense_cases(), 64), run_dense, lambda c: [m for _, m in check_dense(c)],
+               floor=5000, shape="H"),
+        Clause("object_reset", chunks(reset_cases(tier), 8), run_reset, check_reset, floor=100, shape="H"),
         Clause("boundary_probes", chunks(probe_cases(), 4), run_probes, _replay_probe, floor=50, shape="H"),
     ]
